@@ -44,6 +44,10 @@ def check(rep, args):
             raise common.Infra(broken[0])
         notes.extend(broken)
     rep.floor("W.pairs", total // len(configs), 2, "witness pairs")
+    gen = sum(1 for i in rep.instances if i.get("config") == "ws" and str(i.get("what", "")).startswith("generated/"))
+    # 30 generated pairs confirmed on the pinned tree (config ws); a conversion that stops being space-specific drops out of the
+    # generated set, which is exactly the change this class exists to notice
+    rep.floor("W.generated", gen, 30, "colour-conversion witnesses generated from the impl blocks (config ws)")
     cov = {
         "obligations": total,
         "discharged": discharged,
